@@ -503,6 +503,18 @@ impl NetGen {
             return None;
         }
         let waiting_ids: Vec<usize> = waiting.iter().enumerate().filter(|(_, w)| **w).map(|(i, _)| i + 1).collect();
+        // retry after a timeout: a hook's timed ask to a gated peer is abandoned, the same hook asks the same
+        // peer again, and that peer's later messages may ask back (stale replies meet newer edges)
+        if n >= 2 && !self.acyclic && self.rng.chance(1, 10) {
+            let a = 1 + self.rng.below(n as u64) as usize;
+            let mut b = 1 + self.rng.below(n as u64) as usize;
+            if b == a {
+                b = if a == n { 1 } else { a + 1 };
+            }
+            let d = *self.rng.pick(&[5u64, 15]);
+            let inner = if self.rng.chance(1, 2) { format!("a{a}(-)") } else { self.plan_in(n, b) };
+            return Some(format!("ask {a} t{b}:{d}(g),a{b}({inner})"));
+        }
         Some(match self.rng.weighted(&[8, 3, 3, if waiting_ids.is_empty() { 0 } else { 10 }, 2, 1]) {
             0 => {
                 let t = 1 + self.rng.below(n as u64) as usize;
